@@ -1,6 +1,6 @@
 //! C04 — Totality: no input makes the library panic or run unboundedly.
 //!
-//! Strings: (i) every string of ≤ 4 (quick) / ≤ 5 (thorough) tokens over a 46-token alphabet made
+//! Strings: (i) every string of ≤ 4 (quick) / ≤ 5 (thorough) tokens over a 47-token alphabet made
 //! of the terminals of grammar.pest plus hostile tokens; (ii) every expression of E1 ∪ S with every
 //! single-token deletion, duplication and replacement by each alphabet token; (iii) numeric
 //! fields pushed to their limits. `parse` must return. Every distinct expression that parsed is
@@ -24,9 +24,9 @@ use serde_json::{json, Value};
 use std::collections::HashSet;
 use std::sync::Arc;
 
-pub const TOKENS: [&str; 46] = [
+pub const TOKENS: [&str; 47] = [
     "Mo", "Jan", "10:00", "24:00", "48:00", "25:61", "-", ",", ";", " ", "||", "[", "]", "1", "0", "31", "53", "+", "/", ":", "week", "easter", "PH", "SH", "sunrise", "(", ")", "\"", "off", "open",
-    "unknown", "24/7", "2020", "1899", "day", "days", "999999999999999999999", "é", "\u{301}", "\0", "🕐", "=", "Mo[1]", "/30", "dusk", "Su",
+    "unknown", "24/7", "2020", "1899", "day", "days", "999999999999999999999", "é", "\u{301}", "\0", "🕐", "=", "Mo[1]", "/30", "dusk", "Su", "[3-1]",
 ];
 
 const DAYS_IN_RANGE: u64 = 2_958_466;
@@ -196,6 +196,11 @@ fn numeric_limit_strings() -> Vec<String> {
         "23:59-48:00", "00:00-00:00", "sunrise-sunrise", "dusk-dusk+", "(dusk+24:00)+", "10:00-12:00/24:00", "10:00-12:00/00", "10:00-12:00/59", "9999 Dec 31 22:00-48:00", "1900 Jan 1 -1 day", "9999 Dec 31 +1 day",
         "9999 Dec 31 +Su", "1900 Jan 1 -Mo", "Feb 30", "Feb 31-Feb 30", "Jan 31-Feb 31", "Feb 29-Feb 29", "9999 Feb 29", "Dec 31+", "9999 Dec 31+", "easter +400 days", "9999 easter +1 day-9999 easter +400 days",
         "week 53", "week 53-53/2", "week 52-01/7", "9999-1900", "9999-1900/3", "9999+", "1900+", "Mo[5]", "Mo[-5]", "Mo[1-5,-1,-5]", "Mo-Su,PH,SH", "PH,SH,PH,SH", "SH Mo", "Mo SH",
+        // inverted and degenerate ranges at every range position of the grammar (an nth list made of
+        // inverted ranges only selects nothing — a value no AST alphabet can hold)
+        "Mo[3-1]", "Mo[5-1]", "Mo[3-1,2]", "Mo[3-1] +1 day", "Mo[3-1],Tu[2]", "Tu[2],We[5-2] off", "Mo[1-1]", "Mo[5-5]", "Mo[3-1,-1]", "Jan Sa[4-2] +1 day 08:00-12:00; PH off", "We-Mo", "Su-Su", "Mo-Mo",
+        "week 10-05", "week 10-05/2", "week 53-01", "week 1-1", "Mar-Jan", "2020 Mar-Jan", "Jan-Jan", "Jan 5-1", "Jan 31-1", "Dec 31-Jan 1", "2021 Jan 1-2020 Dec 31", "18:00-10:00", "24:00-01:00", "10:00-10:00",
+        "2030-2020/3", "2020-2020", "easter +5 days-easter -5 days", "sunset-sunrise", "(sunset+01:00)-(sunset-01:00)", "dusk-dawn", "Jan 1-easter", "easter-Jan 1", "Dec 31-easter -300 days",
     ] {
         out.push(t.to_string());
     }
@@ -453,6 +458,15 @@ pub fn evaluate(text: &str, level: u8, base_budget: i64, sweep_step: i64, acc: &
     calls
 }
 
+fn fnv(s: &str) -> u64 {
+    let mut h: u64 = 0xcbf29ce484222325;
+    for b in s.bytes() {
+        h ^= b as u64;
+        h = h.wrapping_mul(0x100000001b3);
+    }
+    h
+}
+
 fn has_event(text: &str) -> bool {
     ["sunrise", "sunset", "dawn", "dusk"].iter().any(|e| text.contains(e))
 }
@@ -546,12 +560,15 @@ pub fn run(cfg: &Cfg) -> Outcome {
                         variants.push(join(&rep));
                     }
                 }
-                for (k, v) in variants.iter().enumerate() {
+                for v in variants.iter() {
                     acc.add("strings_parsed", 1);
                     acc.add("near_valid_strings", 1);
-                    if parse_guard(v, &mut acc).is_some() {
+                    if let Some(e) = parse_guard(v, &mut acc) {
                         acc.add("strings_accepted", 1);
-                        if k % 7 == 0 {
+                        // a seventh of the accepted variants goes through the battery, chosen by a
+                        // hash of the parsed value (an index stride aliased with the number of
+                        // tokens: 2 + 47 variants per position is a multiple of 7)
+                        if fnv(&format!("{e:?}")) % 7 == 0 {
                             parsed.push(v.clone());
                         }
                     }
@@ -624,7 +641,7 @@ pub fn run(cfg: &Cfg) -> Outcome {
     o.exhaustive = false;
     o.cov("token_alphabet", json!(TOKENS.to_vec()));
     o.cov("max_tokens", json!(max_tokens));
-    o.cov("rule", json!("exhaustive over a stated finite space (the property quantifies over all strings, so no finite enumeration is complete): every string of ≤ max_tokens tokens over the 46-token alphabet; every single-token deletion/duplication/replacement of E1 ∪ S; numeric fields at their limits; parse under catch_unwind. Every distinct parsed expression (by AST; 4-token strings only in the thorough tier) goes through the battery: to_string, normalize (twice), schedule_at on 11 dates and on every 29th (quick) / every (thorough) day of 1900..2110 plus a 53× coarser lattice to 9999, state/is_*/next_change/iter_from/iter_range at 11 naive instants (MIN, MAX, both range ends…) in default/synthetic/extreme-calendar contexts × {no bound, 1 d, 366 d}, and (for event/limit expressions and a fixed fifth of the rest in quick, all in thorough) 4 time zones and 9 coordinate contexts incl. poles and antimeridian at 8 aware instants. Oracle: no panic; ≤ one schedule_at per day of the supported range per call (H1 counter). distinct_nontrivial = distinct parsed expressions evaluated"));
+    o.cov("rule", json!("exhaustive over a stated finite space (the property quantifies over all strings, so no finite enumeration is complete): every string of ≤ max_tokens tokens over the 47-token alphabet; every single-token deletion/duplication/replacement of E1 ∪ S; numeric fields at their limits; parse under catch_unwind. Every distinct parsed expression (by AST; 4-token strings only in the thorough tier) goes through the battery: to_string, normalize (twice), schedule_at on 11 dates and on every 29th (quick) / every (thorough) day of 1900..2110 plus a 53× coarser lattice to 9999, state/is_*/next_change/iter_from/iter_range at 11 naive instants (MIN, MAX, both range ends…) in default/synthetic/extreme-calendar contexts × {no bound, 1 d, 366 d}, and (for event/limit expressions and a fixed fifth of the rest in quick, all in thorough) 4 time zones and 9 coordinate contexts incl. poles and antimeridian at 8 aware instants. Oracle: no panic; ≤ one schedule_at per day of the supported range per call (H1 counter). distinct_nontrivial = distinct parsed expressions evaluated"));
     o.assume("catch_unwind catches every panic (panic=unwind build); aborts (stack overflow, allocation failure) would kill the engine and surface as a machinery failure, not a pass");
     o
 }
